@@ -48,6 +48,7 @@ fn main() {
             "C11chain" => chaincheck::run("C11", &tier, seed),
             "C19chain" => chaincheck::run("C19", &tier, seed),
             "C17chain" => chaincheck::run("C17", &tier, seed),
+            "C12chain" => chaincheck::run("C12", &tier, seed),
             _ => checks::run(&args[2], &tier, seed),
         },
         "show" => checks::show(&args[2], &tier, seed),
